@@ -305,7 +305,7 @@ func TestC12Tables(t *testing.T) {
 	run := func(c C12Case) {
 		hC12.Eval()
 		n++
-		if err := propC12(c); err != nil {
+		if err := hx.Guard(propC12, c); err != nil {
 			hC12.Fail(t, "TestC12", c, "%v", err)
 		}
 	}
